@@ -90,8 +90,10 @@ Print Assumptions C11_ungroup_groupby.
 (* pivot: the result has one row per distinct x key (strictly increasing under cmp) and one column per distinct y value
    (labels strictly increasing under cmp); the cell of x-group gi and label number k is agg applied to the z values of EXACTLY
    the rows of t whose x key compares 0 with the group's key and whose y compares 0 with the label, in original row order,
-   and None when there is no such row; every row of t has such a cell.  Hypothesis: cells are NaN-free scalars. *)
-Theorem C11_pivot_cell x y z a t : nf_table t ->
+   and None when there is no such row; every row of t has such a cell.
+   Only hypothesis: the y cells are NaN-free scalars (xyz looks the y value up in a dict, i.e. by ==/hash, where a NaN finds nothing);
+   x cells and z cells are ANY values - NaN objects of different identity in x are one key, as in the code. *)
+Theorem C11_pivot_cell x y z a t : Forall scalar_nf (getcol t y) ->
   let KS := keys_of (x ++ [y]) t in let m := length x in let xg := pv_xg m KS in let YL := pv_ylabels m KS in let zs := getcol t z in
   pivot x y z a t = key_table x xg ++ map (fun kl => (label_of (snd kl), map (fun gi => pv_cell m KS zs a gi (fst kl)) xg)) (combine (seq 0 (length YL)) YL) /\
   StronglySorted (fun a b => cmp a b < 0) (map fst xg) /\ StronglySorted (fun a b => cmp a b < 0) YL /\
@@ -111,7 +113,7 @@ Print Assumptions C11_pivot_cell.
    column label), and the pivot cell.  A row whose cell is None stands for no row of t; every other row is exactly one row i of t
    (x key and y compare 0, z identical, and it is the only such row of t); every row of t is recovered this way.
    So dropping the None rows leaves the (x, y, z) rows of t, each once. *)
-Theorem C11_unpivot_pivot x y z a t : x <> [] -> NoDup x -> nf_table t -> (a = ALast \/ a = AFirst) ->
+Theorem C11_unpivot_pivot x y z a t : x <> [] -> NoDup x -> Forall scalar_nf (getcol t y) -> (a = ALast \/ a = AFirst) ->
   (forall i i', (i < nrows t)%nat -> (i' < nrows t)%nat ->
      cmp (key_cols (x ++ [y]) (row t i)) (key_cols (x ++ [y]) (row t i')) = 0 -> i = i') ->
   (forall i, (i < nrows t)%nat -> nth i (getcol t z) VNone <> VNone) ->
@@ -141,6 +143,31 @@ Proof.
     rewrite Ei0. f_equal. symmetry. apply Ui0; [exact Hi | split; assumption].
 Qed.
 Print Assumptions C11_unpivot_pivot.
+
+(* ... as a Permutation: when moreover == x keys / y values are identical (no 1 next to 1.0, one NaN object per key) and different
+   y values have different labels, the rows of unpivot(pivot t) whose z is not None are a Permutation of the
+   (x key, y label, z) rows of t; u_triples are exactly the rows of the unpivoted table, column by column. *)
+Theorem C11_unpivot_pivot_perm x y z a t : x <> [] -> NoDup x -> Forall scalar_nf (getcol t y) -> (a = ALast \/ a = AFirst) ->
+  (forall i i', (i < nrows t)%nat -> (i' < nrows t)%nat ->
+     cmp (key_cols (x ++ [y]) (row t i)) (key_cols (x ++ [y]) (row t i')) = 0 -> i = i') ->
+  (forall i, (i < nrows t)%nat -> nth i (getcol t z) VNone <> VNone) ->
+  (forall i i', (i < nrows t)%nat -> (i' < nrows t)%nat ->
+     cmp (key_cols x (row t i)) (key_cols x (row t i')) = 0 -> key_cols x (row t i) = key_cols x (row t i')) ->
+  (forall i i', (i < nrows t)%nat -> (i' < nrows t)%nat ->
+     cmp (lookup (row t i) y) (lookup (row t i') y) = 0 -> lookup (row t i) y = lookup (row t i') y) ->
+  (forall i i', (i < nrows t)%nat -> (i' < nrows t)%nat ->
+     label_of (lookup (row t i) y) = label_of (lookup (row t i') y) -> lookup (row t i) y = lookup (row t i') y) ->
+  let KS := keys_of (x ++ [y]) t in let m := length x in let zs := getcol t z in
+  Forall (fun l => in_names (label_of l) x = false) (pv_ylabels m KS) ->
+  Permutation (filter z_some (u_triples m KS zs a)) (t_triples x y z t) /\
+  unpivot x y z (pivot x y z a t) =
+    map (fun jc => (snd jc, map (fun tr : val * val * val => tuple_nth (fst jc) (fst (fst tr))) (u_triples m KS zs a))) (combine (seq 0 (length x)) x)
+    ++ [(y, map (fun tr : val * val * val => snd (fst tr)) (u_triples m KS zs a)); (z, map (fun tr : val * val * val => snd tr) (u_triples m KS zs a))].
+Proof.
+  intros Hx ND Hy Ha U ZN EXx EXy LI KS m zs NC.
+  split; [exact (unpivot_pivot_perm x y z a t Hy Ha U ZN EXx EXy LI) | exact (unpivot_pivot_columns x y z a t Hx ND NC)].
+Qed.
+Print Assumptions C11_unpivot_pivot_perm.
 
 (* the hypotheses are satisfiable on non-trivial tables (mixed types, 1 vs 1.0, a shared NaN), and the model computes what the code does *)
 Example C11_example :
@@ -174,7 +201,7 @@ Example C11_pivot_example :
   let t : table := [([97%N], [VNum false 2; VStr [120%N]; VNum false 2; VNone; VStr [120%N]]);
                     ([98%N], [VNum false 2; VNum false 4; VNum false 6; VNum false 8; VNum false 10]);
                     ([99%N], [VStr [112%N]; VStr [113%N]; VStr [113%N]; VStr [113%N]; VStr [114%N]])] in
-  nf_table t /\ NoDup [[97%N]] /\
+  Forall scalar_nf (getcol t [99%N]) /\ NoDup [[97%N]] /\
   Forall (fun l => in_names (label_of l) [[97%N]] = false) (pv_ylabels 1 (keys_of [[97%N]; [99%N]] t)) /\
   (forall i i', (i < nrows t)%nat -> (i' < nrows t)%nat -> cmp (key_cols [[97%N]; [99%N]] (row t i)) (key_cols [[97%N]; [99%N]] (row t i')) = 0 -> i = i') /\
   pivot [[97%N]] [99%N] [98%N] ALast t =
@@ -189,4 +216,30 @@ Proof.
   split; [|split; vm_compute; reflexivity].
   intros i i' Hi Hi'. cbn in Hi, Hi'.
   do 5 (destruct i as [|i]; [do 5 (destruct i' as [|i']; [vm_compute; intros C; try reflexivity; try discriminate C|]); exfalso; lia|]); exfalso; lia.
+Qed.
+
+(* NaN x keys of different identity are one pivot row, as in the code (cmp(nan, nan) == 0) *)
+Example C11_pivot_nan_example :
+  let t : table := [([97%N], [VNaN 0; VNum false 2; VNaN 1]); ([98%N], [VNum false 2; VNum false 4; VNum false 6]); ([99%N], [VStr [112%N]; VStr [112%N]; VStr [113%N]])] in
+  Forall scalar_nf (getcol t [99%N]) /\
+  pivot [[97%N]] [99%N] [98%N] ALast t = [([97%N], [VNum false 2; VNaN 1]); ([112%N], [VNum false 4; VNum false 2]); ([113%N], [VNone; VNum false 6])].
+Proof. cbv zeta. split; [repeat constructor | vm_compute; reflexivity]. Qed.
+
+(* the extra hypotheses of C11_unpivot_pivot_perm are satisfiable (same table as C11_pivot_example) *)
+Example C11_perm_hyps_example :
+  let t : table := [([97%N], [VNum false 2; VStr [120%N]; VNum false 2; VNone; VStr [120%N]]);
+                    ([98%N], [VNum false 2; VNum false 4; VNum false 6; VNum false 8; VNum false 10]);
+                    ([99%N], [VStr [112%N]; VStr [113%N]; VStr [113%N]; VStr [113%N]; VStr [114%N]])] in
+  (forall i i', (i < nrows t)%nat -> (i' < nrows t)%nat ->
+     cmp (key_cols [[97%N]] (row t i)) (key_cols [[97%N]] (row t i')) = 0 -> key_cols [[97%N]] (row t i) = key_cols [[97%N]] (row t i')) /\
+  (forall i i', (i < nrows t)%nat -> (i' < nrows t)%nat ->
+     cmp (lookup (row t i) [99%N]) (lookup (row t i') [99%N]) = 0 -> lookup (row t i) [99%N] = lookup (row t i') [99%N]) /\
+  (forall i i', (i < nrows t)%nat -> (i' < nrows t)%nat ->
+     label_of (lookup (row t i) [99%N]) = label_of (lookup (row t i') [99%N]) -> lookup (row t i) [99%N] = lookup (row t i') [99%N]) /\
+  (forall i, (i < nrows t)%nat -> nth i (getcol t [98%N]) VNone <> VNone).
+Proof.
+  cbv zeta. repeat split;
+    try (intros i i' Hi Hi'; cbn in Hi, Hi';
+         do 5 (destruct i as [|i]; [do 5 (destruct i' as [|i']; [vm_compute; intros C; try reflexivity; try discriminate C|]); exfalso; lia|]); exfalso; lia).
+  intros i Hi. cbn in Hi. do 5 (destruct i as [|i]; [vm_compute; discriminate|]). exfalso; lia.
 Qed.
